@@ -136,7 +136,9 @@ def judge(w, tap, ctx, scenario, reach):
             sel = sa['sel']
             nets = sel_nets(sel)
             sfam = K['AF_INET'] if ts_src[0].version == 4 else K['AF_INET6']
-            want = (sfam, str(ts_src[0]), str(ts_dst[0]), ts_src[1], ts_src[2], ts_dst[1], ts_dst[2], ts_src[3])
+            if ts_src[3] and ts_dst[3] and ts_src[3] != ts_dst[3]:
+                continue          # (contradictory protocols: nothing a kernel selector could denote)
+            want = (sfam, str(ts_src[0]), str(ts_dst[0]), ts_src[1], ts_src[2], ts_dst[1], ts_dst[2], ts_src[3] or ts_dst[3])      # one packet, one protocol
             got = (sel['family'], str(nets[0]) if nets else '?', str(nets[1]) if nets else '?', sel['sport'], sel['sport_mask'], sel['dport'],
                    sel['dport_mask'], sel['proto'])
             if got != want:
